@@ -9,13 +9,22 @@ import "sync"
 // closed; work submitted after Close returned is dropped. Bounds: 1..2 concurrent senders x <= 2 items
 // (thorough: 3 senders), mailbox capacity 0..1, every schedule with <= 1 preemption (thorough 2) at statement granularity.
 
-type c12Ev struct{ sender, seq int }
+// sender and seq identify a message (concrete bookkeeping); payload is an arbitrary value determined by them
+// (an uninterpreted function of sender and seq) that has to arrive unchanged
+type c12Ev struct{ sender, seq, payload int }
+
+func c12Msg(s, i int) c12Ev { return c12Ev{s, i, vfFn("payload", s, i)} }
 
 func c12Senders() int { return 2 + vfTier() }
 
 func c12CheckLog(log []c12Ev, senders, per int, overlap bool) {
 	vfAssert("no-overlap", !overlap)
 	vfAssert("each-exactly-once-count", len(log) == senders*per)
+	intact := true
+	for _, e := range log {
+		intact = vfAnd(intact, e.payload == vfFn("payload", e.sender, e.seq))
+	}
+	vfAssert("payload-intact", intact)
 	for s := 0; s < senders; s++ {
 		next := 0
 		ok := true
@@ -50,7 +59,7 @@ func vh_C12_Handler() {
 						overlap = true
 					}
 					inside = true
-					log = append(log, c12Ev{s, i})
+					log = append(log, c12Msg(s, i))
 					inside = false
 				})
 			}
@@ -107,7 +116,7 @@ func vh_C12_Actor() {
 		s := s
 		go func() {
 			for i := 0; i < per; i++ {
-				a.Send(c12Ev{s, i})
+				a.Send(c12Msg(s, i))
 			}
 			wg.Done()
 		}()
@@ -120,7 +129,7 @@ func vh_C12_Actor() {
 	vfNoPanic("nopanic-close-send", func() {
 		a.Close()
 		vfAssert("isclosed", a.IsClosed())
-		a.Send(c12Ev{9, 9})
+		a.Send(c12Msg(9, 9))
 	})
 	vfQuiesce()
 	vfAssert("send-after-close-dropped", len(log) == before)
@@ -185,7 +194,7 @@ func vh_C12_HandlerDeep() {
 					overlap = true
 				}
 				inside = true
-				log = append(log, c12Ev{s, 0})
+				log = append(log, c12Msg(s, 0))
 				inside = false
 			})
 			wg.Done()
@@ -214,7 +223,7 @@ func vh_C12_ActorDeep() {
 		wg.Add(1)
 		s := s
 		go func() {
-			a.Send(c12Ev{s, 0})
+			a.Send(c12Msg(s, 0))
 			wg.Done()
 		}()
 	}
